@@ -50,6 +50,12 @@ def build_pool(tmp):
             d['spc'] = 0
         r = camx_u.materialize(d)
         add(tag, fmt, fmt, camx_u.encode(r), sd)
+    # a second file of each CAMx self-describing format on ANOTHER horizontal grid and species count (anything a
+    # reader remembers about the first file of its format - record layouts, sizes - must not leak into the second)
+    for fmt, tag in (('uamiv', 'avg2'), ('lateral_boundary', 'bc2')):
+        d = dict(camx_u.base_desc(fmt), shape=[2, 3, 1], spc=2, nsteps=1)
+        p2 = put('%s.%s' % (tag, fmt), camx_u.encode(camx_u.materialize(d)))
+        pool.append({'tag': '%s.%s' % (tag, fmt), 'fmt': fmt, 'path': p2, 'ext': True, 'selfdesc': True, 'kw': {}})
     # a 2-D uamiv file whose grid header carries nz = 0 (usual for low-level emissions; read as one layer)
     d = dict(camx_u.base_desc('uamiv'), name=camx_u.NAMES.index('EMISSIONS'), shape=[3, 2, 1], hdr_nz0=True)
     add('emis', 'uamiv', 'uamiv', camx_u.encode(camx_u.materialize(d)))
@@ -217,7 +223,7 @@ def events(pool):
     return ev
 
 
-REDUCED = ('ict_utf8_noext', 'irregular.bpch', 'irregular_noext', 'gc_missing/punch11.bpch', 'gc_missing/punch11_noext', 'cuthdf.nc', 'cuthdf_noext', 'nc4.ncf', 'nc4_noext', 'probe.sonde', 'avg.uamiv', 'kv.vertical_diffusivity', 'hum.humidity', 'ict.ffi1001', 'nc3.nc', 'io.ioapi', 'punch.bpch',
+REDUCED = ('ict_utf8_noext', 'irregular.bpch', 'irregular_noext', 'gc_missing/punch11.bpch', 'gc_missing/punch11_noext', 'cuthdf.nc', 'cuthdf_noext', 'nc4.ncf', 'nc4_noext', 'probe.sonde', 'avg.uamiv', 'bc.lateral_boundary', 'kv.vertical_diffusivity', 'hum.humidity', 'ict.ffi1001', 'nc3.nc', 'io.ioapi', 'punch.bpch',
            'ict_crlf.ffi1001', 'cut.humidity', 'cut.nc', 'cut.uamiv', 'kv_noext', 'nc3_noext', 'junk_noext',
            'shared<-uamiv', 'shared<-nc3')
 REDUCED_EXPLICIT = ('avg.uamiv', 'ict.ffi1001', 'hum.humidity', 'kv_noext', 'nc3_noext')
